@@ -1,7 +1,7 @@
 """C09 — shard files: full-hash identity after truncated lookup, record-count formula agreement, token tables,
 footer definite assignment, replace-aware size accounting (structural clauses; DESIGN.md §5 C09)."""
 from .core import an, strip_generics as sg, edges_where, bool_edges, success_edges, propagation, cond_edges
-from . import flow, serde, symval, paths
+from . import flow, serde, symval, paths, core
 from . import rules_c05 as c05
 
 EXPLANATION = (
@@ -39,15 +39,23 @@ def r09a(ctx):
     F = ctx.F
     a = an(F.body(SF + 'MDBShardInfo::get_file_reconstruction_info'))
     fn = a.path
-    hits = [(b, si, e) for (b, si, k, e) in a.ret_sites() if k == 'ok' and e[3][0][1][0] == 'agg' and e[3][0][1][2].endswith('Option::Some')]
     rf = a.calls(SF + 'MDBShardInfo::read_file_info')
-    if ctx.check(len(hits) == 1 and len(rf) == 1, 'R09a', fn, 'sites', '-', 'one read_file_info and one Ok(Some)'):
+    # every value an Ok return can carry: None, or Some(record) built at some site (directly or through a result variable)
+    srcs = []
+    for (b, si, k, e) in a.ret_sites():
+        if k == 'ok':
+            for (sb, ssi, se) in a.flow.sources(e[3][0][1], (b, si)):
+                srcs.append((sb if sb is not None else b, ssi if sb is not None else si, se))
+    somes = [(b, si, e) for (b, si, e) in srcs if e[0] == 'agg' and e[2].endswith('Option::Some')]
+    other = [(b, si, e) for (b, si, e) in srcs if not (e[0] == 'agg' and (e[2].endswith('Option::Some') or e[2].endswith('Option::None')))]
+    ctx.check(not other, 'R09a', fn, 'returned values', a.loc(*other[0][:2]) if other else '-', 'every Ok value is None or a Some(record) built in this function')
+    if ctx.check(len(somes) >= 1 and len(rf) == 1, 'R09a', fn, 'sites', '-', 'one read_file_info and at least one Some(record) result'):
         eq = edges_where(a, lambda op, l, r: op == 'Eq' and l[0] == 'field' and l[2] == 'file_hash' and a.rooted_at(l, rf[0]) and r == ('param', 3, 'file_hash'))
-        b, si, e = hits[0]
         lp = c05.loop_of(a, rf[0])
-        ctx.check(lp is not None and c05.in_iteration_guarded(a, lp, b, eq), 'R09a', fn, 'full hash', a.loc(b, si), 'a record is returned only on the equal edge of its stored file_hash == the queried hash (same iteration)',
-                  'a file record can be returned for a query whose full hash was not compared with the stored one (truncated-prefix collisions return the wrong file)')
-        ctx.check(a.rooted_at(e[3][0][1][3][0][1], rf[0]), 'R09a', fn, 'payload', a.loc(b, si), 'the returned record is the one read at the probed index')
+        for (b, si, e) in somes:
+            ctx.check(lp is not None and c05.in_iteration_guarded(a, lp, b, eq), 'R09a', fn, 'full hash', a.loc(b, si), 'a record becomes the result only on the equal edge of its stored file_hash == the queried hash (same iteration)',
+                      'a file record can be returned for a query whose full hash was not compared with the stored one (truncated-prefix collisions return the wrong file)')
+            ctx.check(a.rooted_at(e[3][0][1], rf[0]), 'R09a', fn, 'payload', a.loc(b, si), 'the returned record is the one read at the probed index')
     for nm in ('get_file_info_index_by_hash', 'get_cas_info_index_by_hash'):
         g = an(F.body(SF + 'MDBShardInfo::' + nm))
         ss = g.calls('mdb_shard::interpolation_search::search_on_sorted_u64s')
@@ -427,65 +435,93 @@ def r09f(ctx):
     a = an(ctx.F.one('mdb_shard::interpolation_search::search_on_sorted_u64s'))
     fn = a.path
     loops = a.cfg.loops()
-    cmps = a.calls('core::cmp::Ord::cmp')
+
+    def is_target(e):
+        return e[0] == 'param' and e[2] == 'key'
+
+    reads = [b for b in a.calls() if sg(a.term(b).get('fn', '')).endswith('read_u64')]
+
+    def is_key_of(rb):
+        return lambda e: a.rooted_at(e, rb)
+
+    def compares_key(rb, blks):
+        return bool(core.order_refinements(a, blks, is_target, is_key_of(rb)))
+    # the probe loop: the largest loop with a seek and a comparison of the target with a key read at its own level
     probe = None
     for h, blks in loops.items():
-        if any(c in blks for c in cmps) and any(sg(a.term(b).get('fn', '')) == 'std::io::Seek::seek' for b in blks if a.blocks[b]['t']['k'] == 'call'):
+        own = [rb for rb in reads if rb in blks and c05.loop_of(a, rb)[0] == h and compares_key(rb, blks)]
+        if own and any(sg(a.term(b).get('fn', '')) == 'std::io::Seek::seek' for b in blks if a.blocks[b]['t']['k'] == 'call'):
             if probe is None or len(blks) > len(probe[1]):
-                probe = (h, blks)
+                probe = (h, blks, own)
     if not ctx.check(probe is not None, 'R09f', fn, 'probe loop', '-', 'found the seek-and-compare probe loop'):
         return
-    head, blks = probe
-    cs = [c for c in cmps if c in blks and c05.loop_of(a, c)[0] == head]
-    if not ctx.check(len(cs) == 1, 'R09f', fn, 'comparison', '-', 'one three-way comparison of the target with the probed key per iteration'):
+    head, blks, own = probe
+    if not ctx.check(len(own) == 1, 'R09f', fn, 'comparison', '-', 'one probed key is read and compared with the target per iteration'):
         return
-    c = cs[0]
-    x, y = a.arg(c, 0), a.arg(c, 1)
-    target_first = x == ('param', 4, 'key') or (x[0] == 'param' and x[2] == 'key')
-    ctx.check(target_first and a.root_call(y) is not None and sg(a.root_call(y)[1]).endswith('read_u64'), 'R09f', fn, 'cmp operands', a.loc(c), 'the comparison is target.cmp(probed key read from the table)')
-    ve = a.variant_edges(c, 'core::cmp::Ordering')
-    less, equal, greater = ve.get('255', []), ve.get('0', []), ve.get('1', [])
-    ctx.check(bool(less) and bool(equal) and bool(greater), 'R09f', fn, 'arms', a.loc(c), 'all three outcomes are distinguished')
-    latches = [(b, head) for b in blks if head in a.cfg.succ[b]]
+    rb = own[0]
+    st, ref = core.order_states(a, head, blks, is_target, is_key_of(rb))
+    seen = set().union(*ref.values()) if ref else set()
+    ctx.check(seen == {'L', 'E', 'G'} and all(any(v == {o} for v in st.values()) for o in 'LEG'), 'R09f', fn, 'arms', a.loc(rb),
+              'all three outcomes of comparing the target with the probed key are distinguished')
 
-    def assigned_in_loop(name):
+    def assigned_in(name, inblks):
         out = []
         for l, ld in enumerate(a.body['locals']):
             if ld.get('n') == name:
                 for d in a.flow.defs.get(l, []):
-                    if d[0] == 'assign' and d[1] in blks:
+                    if d[0] == 'assign' and d[1] in inblks:
                         out.append((d[1], d[2], a.flow.rvalue(d[3], 0)))
         return out
-    # lower bound: only after target > probed key (Greater), to the probed position
-    for (b, si, e) in assigned_in_loop('lo'):
-        ok = bool(greater) and b not in a.cfg.reach([head], cut_edges=set(greater) | set(latches))
-        ctx.check(ok, 'R09f', fn, 'lo moves', a.loc(b, si), 'the lower bound is raised only on the "target > probed key" edge',
+
+    def state(b):
+        return st.get(b, set())
+    # lower bound: only after target > probed key, to the probed position
+    for (b, si, e) in assigned_in('lo', blks):
+        ctx.check(state(b) <= {'G'}, 'R09f', fn, 'lo moves', a.loc(b, si), 'the lower bound is raised only where the target is known to be greater than the probed key',
                   'the lower bound of the search window is raised on a path where the probed key is not smaller than the target: entries equal to the target in front of the probe fall out of the window (lookups miss stored records when several share a prefix)')
         ctx.check(e[0] == 'local' and e[2] == 'probe_index', 'R09f', fn, 'lo value', a.loc(b, si), 'the lower bound becomes the probed position')
-    for (b, si, e) in assigned_in_loop('hi'):
-        ok = b not in a.cfg.reach([head], cut_edges=set(less) | set(equal) | set(latches))
-        ctx.check(ok, 'R09f', fn, 'hi moves', a.loc(b, si), 'the upper bound is lowered only on the "target <= probed key" edges',
+    for (b, si, e) in assigned_in('hi', blks):
+        ctx.check(state(b) <= {'L', 'E'}, 'R09f', fn, 'hi moves', a.loc(b, si), 'the upper bound is lowered only where the target is known to be <= the probed key',
                   'the upper bound of the search window is lowered on a path where the probed key is smaller than the target')
         ctx.check(e[0] == 'local' and e[2] == 'probe_index', 'R09f', fn, 'hi value', a.loc(b, si), 'the upper bound becomes the probed position')
-    ctx.floor('R09f', 'window-bound assignments in the probe loop', len(assigned_in_loop('lo')) + len(assigned_in_loop('hi')), 3)
-    # on the Equal edge the matching run from the probe up to hi is read out before hi is lowered
-    his_eq = [(b, si) for (b, si, e) in assigned_in_loop('hi') if b not in a.cfg.reach([head], cut_edges=set(equal) | set(latches))]
-    wr = [w for w in a.calls() if w in blks and 'write_result' in flow.show(a.flow.expr(a.term(w)['args'][0])) or (a.term(w).get('fn', '').endswith('FnMut::call_mut') and w in blks)]
-    ok = bool(his_eq) and bool(wr) and all(any(b not in a.cfg.reach([t for (_, t) in equal], cut_edges=set(a.cfg.out_edges(w)) | set(latches)) for w in wr) for (b, si) in his_eq)
-    ctx.check(ok, 'R09f', fn, 'equal arm reads first', '-', 'in the equal arm a value is recorded before the upper bound moves to the probe')
+    ctx.floor('R09f', 'window-bound assignments in the probe loop', len(assigned_in('lo', blks)) + len(assigned_in('hi', blks)), 3)
+    # where the keys are equal the matching run from the probe up to hi is read out before hi is lowered
+    latches = [(b, head) for b in blks if head in a.cfg.succ[b]]
+    his_eq = [(b, si) for (b, si, e) in assigned_in('hi', blks) if state(b) == {'E'}]
+    wr = [w for w in a.calls() if w in blks and sg(a.term(w).get('fn', '')).endswith('FnMut::call_mut')]
+    eq_entry = [q for (p, q), v in ref.items() if v == {'E'}]
+    ok = bool(his_eq) and bool(wr) and bool(eq_entry) and all(any(b not in a.cfg.reach(eq_entry, cut_edges=set(a.cfg.out_edges(w)) | set(latches)) for w in wr) for (b, si) in his_eq)
+    ctx.check(ok, 'R09f', fn, 'equal arm reads first', '-', 'where the keys are equal a value is recorded before the upper bound moves to the probe')
     # the final sequential scan covers (lo, hi): starts at lo, advances lo by 1 per entry, stops only on target < key
-    seq = [(h2, b2) for h2, b2 in loops.items() if h2 != head and any(c2 in b2 for c2 in cmps)]
-    if ctx.check(len(seq) == 1, 'R09f', fn, 'scan loop', '-', 'found the final sequential scan'):
-        h2, b2 = seq[0]
-        c2 = [c_ for c_ in cmps if c_ in b2][0]
-        ve2 = a.variant_edges(c2, 'core::cmp::Ordering')
-        exits = [(p, q) for p in b2 for q in a.cfg.succ[p] if q not in b2]
+    seq = []
+    for h2, b2 in loops.items():
+        if h2 in blks or h2 == head:
+            continue
+        own2 = [r2 for r2 in reads if r2 in b2 and compares_key(r2, b2)]
+        if own2:
+            seq.append((h2, b2, own2))
+    if ctx.check(len(seq) == 1 and len(seq[0][2]) == 1, 'R09f', fn, 'scan loop', '-', 'found the final sequential scan'):
+        h2, b2, own2 = seq[0]
+        r2 = own2[0]
+        st2, ref2 = core.order_states(a, h2, b2, is_target, is_key_of(r2))
+        compared = {q for (p, q) in ref2}
+        after_cmp = a.cfg.reach(sorted(compared), cut_edges={(x_, h2) for x_ in b2 if h2 in a.cfg.succ[x_]}) & set(b2)
         erronly = a.error_blocks()
-        lat2 = [(x_, h2) for x_ in b2 if h2 in a.cfg.succ[x_]]
-        after_cmp = a.cfg.reach([c2], cut_edges=set(ve2.get('255', [])) | set(lat2))
-        early = [(p, q) for (p, q) in exits if p in after_cmp and p != c2 and q not in erronly and (p, q) not in ve2.get('255', [])]
-        ctx.check(not early, 'R09f', fn, 'scan exits', a.loc(c2), 'after comparing an entry the sequential scan leaves the loop early only through the "target < key" edge',
-                  'the sequential scan can stop early although equal keys may follow (exit at line %s not behind the "target < key" edge)' % [a.line(p) for (p, q) in early])
+        exits = [(p, q) for p in b2 for q in a.cfg.succ[p] if q not in b2 and q not in erronly and not a.blocks[q].get('cl')]
+
+        def edge_state(p, q):
+            s_ = set(st2.get(p, set()))
+            if (p, q) in ref2:
+                s_ &= ref2[(p, q)]
+            return s_
+        early = [(p, q) for (p, q) in exits if (p in after_cmp or (p, q) in ref2) and not edge_state(p, q) <= {'L'}]
+        ctx.check(not early, 'R09f', fn, 'scan exits', a.loc(r2), 'after comparing an entry the sequential scan leaves the loop early only where the target is smaller than the entry\'s key',
+                  'the sequential scan can stop early although equal keys may follow (exit at line %s not behind a "target < key" test)' % [a.line(p) for (p, q) in early])
         rec = [w for w in a.calls() if w in b2 and sg(a.term(w).get('fn', '')).endswith('FnMut::call_mut')]
-        ok2 = bool(rec) and all(w not in a.cfg.reach([h2], cut_edges=set(ve2.get('0', [])) | set(lat2)) for w in rec)
-        ctx.check(ok2, 'R09f', fn, 'scan records', a.loc(c2), 'the scan records a value exactly on the equal edge')
+        ok2 = bool(rec) and all(st2.get(w, {'L', 'E', 'G'}) == {'E'} for w in rec)
+        ctx.check(ok2, 'R09f', fn, 'scan records', a.loc(r2), 'the scan records a value exactly where the keys are equal')
+        # every entry whose key equals the target is recorded: the equal state reaches a latch only through a record
+        lat2 = [(x_, h2) for x_ in b2 if h2 in a.cfg.succ[x_]]
+        eq_in = [q for (p, q), v in ref2.items() if 'E' in v]
+        skip = [x_ for (x_, _) in lat2 if x_ in a.cfg.reach([q for (p, q), v in ref2.items() if v == {'E'}], cut_edges={e_ for w in rec for e_ in a.cfg.out_edges(w)} | set(lat2))]
+        ctx.check(bool(eq_in) and not skip, 'R09f', fn, 'scan records all', a.loc(r2), 'an entry with an equal key is always recorded before the scan moves on')
